@@ -309,6 +309,12 @@ def main(ck):
     # ---- verdicts
     finding = ck.match_finding(FINDING)
     finding_ms = ck.match_finding(FINDING_MS)
+    # self-test knob (can only make the check stricter): treat the named open findings as already fixed
+    treat_fixed = [x for x in os.environ.get("VERIF_C02_TREAT_FIXED", "").split(",") if x]
+    if FINDING in treat_fixed:
+        finding = None
+    if FINDING_MS in treat_fixed:
+        finding_ms = None
     viol = 0
     sig_cases, ms_cases = 0, 0
     reproduced = set()
